@@ -156,7 +156,7 @@ class CompositeType(SerializableType):
     @property
     def name_components(self) -> typing.List[str]:
         """Components of the full name as a list, e.g., ``['uavcan', 'node', 'Heartbeat']``."""
-        return self._name_components
+        return list(self._name_components)
 
     @property
     def namespace_components(self) -> typing.List[str]:
